@@ -29,6 +29,13 @@ def replay_aes(prop, r, fs, seed, work):
     return rc == 1, out
 
 
+def replay_mode(prop, r, fs, seed, work):
+    """mode_* groups: a failed one-step contract of a stream object is looked for on whole streams of the real objects (40 blocks, all five
+    modes, both directions) against SP 800-38A built from the FIPS-197 specification library; IV shapes with zero bytes and counter carries"""
+    rc, out = native('mode_replay.cpp', ['kernel/multi_aes/aes/aes.cpp', 'kernel/multi_aes/aes/aesmode.cpp'], [seed, 300], work)
+    return rc == 1, out
+
+
 def replay_hash(prop, r, fs, seed, work):
     big = ['big'] if any('loop_invariant' in (f['id'] or '') or 'postcondition.2' in (f['id'] or '') for f in fs) or 'getStringHash' in r['name'] else []
     rc, out = native('hash_replay.cpp', ['kernel/hash/sha1.cpp', 'kernel/hash/md5.cpp', 'kernel/hash/sha256.cpp', 'kernel/hash/hashmaster.cpp',
@@ -84,7 +91,7 @@ def replay_file(prop, r, fs, seed, work):
     return False, 'battery of %d runs of the real program (round trips, tampered bytes) passed: no failing input found' % len(runs)
 
 
-DRIVERS = [('cry_', replay_file), ('pipe_', replay_file), ('hmac_', replay_file), ('fheader_', replay_file), ('bg_', replay_file), ('b64_', replay_b64), ('aes_', replay_aes), ('sha', replay_hash), ('md5', replay_hash), ('hashmaster_', replay_hash), ('filebuffer', replay_hash)]
+DRIVERS = [('cry_', replay_file), ('pipe_', replay_file), ('hmac_', replay_file), ('fheader_', replay_file), ('bg_', replay_file), ('b64_', replay_b64), ('aes_', replay_aes), ('mode_', replay_mode), ('sha', replay_hash), ('md5', replay_hash), ('hashmaster_', replay_hash), ('filebuffer', replay_hash)]
 
 
 def make(prop, r, fs, meta, seed, work):
